@@ -448,6 +448,9 @@ func (g *muxGen) payloadSize() int {
 		if r.Chance(1, 3) {
 			return r.Range(65520, 65560)
 		}
+		if g.maxData > 20000 && !r.Chance(1, 8) {
+			return r.Range(1, 20000)
+		}
 		return r.Range(1, g.maxData)
 	case 9, 10:
 		return r.Range(1, 3000)
@@ -714,6 +717,69 @@ func muxBigPMT(r *Rng, tier string) (int, []muxOp) {
 	return period, g.ops
 }
 
+// descsOfSize: descriptors whose encoding is exactly x bytes (x = 0 or x >= 2).
+func descsOfSize(r *Rng, x int) []*astits.Descriptor {
+	var out []*astits.Descriptor
+	for x > 0 {
+		n := x
+		if n > 257 {
+			n = 257
+		}
+		if x-n == 1 {
+			n--
+		}
+		d := &astits.Descriptor{Tag: uint8(0x80 + r.Intn(0x7f)), Length: uint8(n - 2)}
+		if n > 2 {
+			d.UserDefined = r.Bytes(n - 2)
+		}
+		out = append(out, d)
+		x -= n
+	}
+	return out
+}
+
+// muxPMTBody: streams whose PMT body (4 + sum of 5 + descriptors) is exactly target bytes: 65536 makes the uint16
+// section length wrap to 0, 1013..2000 is just above what a section may hold; all must be rejected.
+func muxPMTBody(r *Rng, tier string, target int) (int, []muxOp) {
+	g := newMuxGen(r, tier)
+	rest := target - 4
+	add := func(n int) {
+		es := g.stream(0, 0)
+		if r.Bool() {
+			es.ElementaryPID = g.freshPID()
+			g.pids = append(g.pids, es.ElementaryPID)
+			g.ops = append(g.ops, muxOp{kind: opAdd, es: es})
+		} else {
+			g.addAuto(0)
+			es = g.ops[len(g.ops)-1].es
+		}
+		es.ElementaryStreamDescriptors = descsOfSize(r, n-5)
+		rest -= n
+	}
+	for rest > 1200 {
+		add(5 + 4*257)
+	}
+	for rest > 1033 || rest == 6 {
+		add(57)
+	}
+	if rest >= 5 {
+		add(rest)
+	}
+	g.setPCR(true)
+	g.tables()
+	pid, _ := g.anyPID()
+	g.data(pid, nil, r.Range(1, 300))
+	g.data(pid, g.firstAF(0, 1), r.Range(1, 300))
+	for i := 0; i < 3 && len(g.pids) > 1; i++ {
+		g.remove(true)
+	}
+	if !g.has(g.pcr) {
+		g.setPCR(true)
+	}
+	g.tables()
+	return r.Range(1, 3), g.ops
+}
+
 // muxManyPackets: more than 16 packets per PID in several calls, interleaved over PIDs, with failing calls in between.
 func muxManyPackets(r *Rng, tier string) (int, []muxOp) {
 	g := newMuxGen(r, tier)
@@ -918,6 +984,14 @@ func muxGenAll(r *Rng, tier string, m muxMix, emit func(string, Tok)) {
 	for i := 0; i < m.bigPMT; i++ {
 		p, ops := muxBigPMT(r, tier)
 		emit("big-pmt", muxCaseTok(p, ops))
+	}
+	for i := 0; i < m.bigPMT/5+1; i++ {
+		target := 65536
+		if i > 0 {
+			target = r.Range(1013, 2000)
+		}
+		p, ops := muxPMTBody(r, tier, target)
+		emit("pmt-body-overflow", muxCaseTok(p, ops))
 	}
 	for i := 0; i < m.many; i++ {
 		p, ops := muxManyPackets(r, tier)
